@@ -23,6 +23,7 @@ RULE = ("case = one transfer (direction, API path, payload length, size declared
         "in thorough; cases run back-to-back on one client in shuffled order (history). Signature = (direction, path, "
         "length class relative to 4 / 7k boundaries, declared, forced, buffering, chunk class, server style); non-trivial = "
         "at least one segment frame or a boundary length (0, 4, 5, 7k, 7k+-1).")
+RULE += (" " + "Widened later: servers that fill upload segments partly or not at all (segment_fill patterns), every third history on a buffer-reusing back end, declared DOMAIN/OCTET_STRING entries under all response styles with values ending in zero bytes, and an 'abandoned transfer' family (time-out at every step of all six transfer kinds, SdoClient.abort()) in which every client abort frame is judged as a request frame (8 bytes, multiplexer of the transfer).")
 ASSUMPTIONS = ["reference server transcribed from CiA 301 7.2.4; it accepts short non-final segments (legal)",
                "raw (buffering=0) expedited writes are offered whole payloads (API design: a short write returns 0)",
                "declared size always equals the bytes written (anything else is a caller error)"]
